@@ -138,9 +138,27 @@ impl Prop for C02 {
         let rng = Rng::new(seed);
         // run 0..k of every batch are the pinned golden corpora (explicit call lists, not regenerated)
         let p = profile(&mut rng.derive("profile"));
+        let mut r = rng.derive("replicas");
+        if r.chance(1, 3) {
+            // mode "shared commits": commits and clearCaches are part of the common call history; the replicas
+            // differ in hash seed and in being stopped and reopened right after a commit / a clearCaches
+            // (points at which nothing uncommitted exists, so a restart must be unobservable)
+            let mut p = p.clone();
+            p.commit = CommitSched::Random(1, 5);
+            p.p_clear = (1, 6);
+            p.p_mine = (1, 3);
+            p.blocks = (6, 20);
+            let mut g = Gen::new(rng.derive("workload"), &p);
+            let mut v = case_of(&g.scenario());
+            v["shared_commits"] = json!(true);
+            v["replicas"] = json!([
+                {"hash_seed": r.next(), "restart_after_sync": false},
+                {"hash_seed": r.next(), "restart_after_sync": true},
+            ]);
+            return v;
+        }
         let mut g = Gen::new(rng.derive("workload"), &p);
         let mut v = case_of(&g.scenario());
-        let mut r = rng.derive("replicas");
         v["replicas"] = json!([
             {"hash_seed": r.next(), "commit_every": 0, "restart_every": 0},
             {"hash_seed": r.next(), "commit_every": r.range(1, 3), "restart_every": 0},
@@ -207,7 +225,33 @@ impl Prop for C02 {
         let mut boundaries = 0u64;
         let mut cmp_rng = Rng::new(sc.hash_seed).derive("cmp");
 
+        let shared = case["shared_commits"].as_bool().unwrap_or(false);
+        let restart_after_sync: Vec<bool> = reps.iter().map(|r| r["restart_after_sync"].as_bool().unwrap_or(false)).collect();
         'ops: for (i, op) in sc.ops.iter().enumerate() {
+            if shared && matches!(op, Op::Commit | Op::ClearCaches) {
+                // part of the common history; afterwards nothing uncommitted exists, so stopping and reopening
+                // a replica here must not be observable
+                let mut results: Vec<Vec<Value>> = vec![];
+                for (k, w) in worlds.iter_mut().enumerate() {
+                    let open_before = w.open.is_some();
+                    let rs = w.exec(i, op);
+                    if let Some(p) = any_panic(&rs) {
+                        violation = Some(Violation::new("panic-in-history", json!({"op": i, "panic": p})));
+                        break 'ops;
+                    }
+                    results.push(rs.iter().map(|r| r.to_value()).collect());
+                    let ok = rs.first().map(|r| r.is_ok()).unwrap_or(false);
+                    if ok && restart_after_sync.get(k).cloned().unwrap_or(false) && !(open_before && matches!(op, Op::Commit)) {
+                        w.exec(i, &Op::Restart { commit_first: false });
+                        w.stats.bump("probe_replica_restarted_after_sync_point");
+                    }
+                }
+                if results.iter().any(|r| *r != results[0]) {
+                    violation = Some(Violation::new("call-result-differs/sync-point", json!({"op": i, "results": results})));
+                    break 'ops;
+                }
+                continue;
+            }
             if matches!(op, Op::Commit | Op::ClearCaches | Op::Restart { .. }) {
                 continue;
             }
